@@ -185,7 +185,13 @@ class NameGen(gen.ProgGen):
             return v
         I = self.info[v]
         w = self.fresh("n")
-        self.add([w, "name", v, name or self.rng.choice(NAME_POOL)], gen.Info(I.nullable, I.left, I.shape))
+        nm = name or self.rng.choice(NAME_POOL)
+        k = self.rng.random()
+        if k < 0.5:        # the keyword spellings as often as 'name*' / plain call
+            st = [w, "set_results_name", v, nm.rstrip("*"), nm.endswith("*")] + (["camel"] if k < 0.2 else [])
+        else:
+            st = [w, "name", v, nm]
+        self.add(st, gen.Info(I.nullable, I.left, I.shape))
         if self.rng.random() < 0.2:
             self.add(["_", "action", w, self.rng.choice(REPL_TAGS)], None)
         return w
@@ -336,6 +342,71 @@ def directed_case(rng, n_inputs=6):
 # ---------------------------------------------------------------------------------------------------
 # correspondence runner
 # ---------------------------------------------------------------------------------------------------
+# ---------------------------------------------------------------------------------------------------
+# what the PROGRAM asks for (the model otherwise reads resultsName / modalResults / saveAsList off the live objects)
+# ---------------------------------------------------------------------------------------------------
+LISTY_TRUE = {"+", "-", "And", "Group", "ZeroOrMore", "OneOrMore", "DelimitedList", "Each", "&"}
+LISTY_FALSE = {"Literal", "Word", "Char", "Keyword", "CaselessLiteral", "CaselessKeyword", "CharsNotIn", "Empty", "NoMatch",
+               "StringStart", "StringEnd", "LineStart", "LineEnd", "WordStart", "WordEnd", "Suppress", "Combine", "SkipTo"}
+ALT_OPS = {"|", "^", "MatchFirst", "Or"}
+PASS_OPS = {"name", "set_results_name", "copy", "leave_whitespace", "set_whitespace_chars", "call", "alias"}
+
+
+def listy(defs, v, seen=()):
+    """the property's own rule: a single token for token elements, the token list for sequence, group and repetition
+    elements; an alternation is list-valued iff one of its alternatives is.  None = not decided from the program."""
+    st = defs.get(v)
+    if st is None or v in seen:
+        return None
+    op = st[1]
+    if op == "DelimitedList" and len(st) > 3 and st[3].get("combine"):
+        return False      # combine=True wraps the list in a Combine: one joined token
+    if op in LISTY_TRUE:
+        return True
+    if op in LISTY_FALSE:
+        return False
+    if op in PASS_OPS:
+        return listy(defs, st[2], seen + (v,))
+    if op in ALT_OPS:
+        kids = st[2] if isinstance(st[2], list) else st[2:4]
+        vals = [listy(defs, k, seen + (v,)) for k in kids]
+        if any(x is True for x in vals):
+            return True
+        return False if all(x is False for x in vals) else None
+    return None
+
+
+def program_facts(b, prog, nodes, ids):
+    """overwrite, in the extracted node table, the facts the naming statements of the program determine: the name and the
+    list-all flag they request (`e("n*")`, `set_results_name("n", list_all_matches=True)`, `listAllMatches=True`), and for a
+    named ALTERNATION whether it is list-valued (`listy`).  A live object that disagrees then shows up as a difference
+    between the real result and the declarative reading."""
+    defs = {st[0]: st for st in prog if st[0] != "_"}
+    for st in prog:
+        if st[1] not in ("name", "set_results_name"):
+            continue
+        if st[1] == "name":
+            nm, star = st[3].rstrip("*"), st[3].endswith("*")
+        else:
+            star = bool(st[4]) if len(st) > 4 else False
+            nm = st[3]
+            if nm.endswith("*"):
+                nm, star = nm[:-1], True
+        obj = b.env.get(st[0])
+        i = ids.get(id(obj))
+        if i is None or not nm:
+            continue
+        tgt = st[2]
+        while defs.get(tgt) is not None and defs[tgt][1] in PASS_OPS:
+            tgt = defs[tgt][2]
+        want_list = listy(defs, st[2]) if (defs.get(tgt) is not None and defs[tgt][1] in ALT_OPS) else None
+        for act in nodes[i][6]:
+            if str(act[0]) in ("name", "nameL"):
+                act[1], act[2] = nm, (not star)
+                if want_list is not None and str(act[0]) == "name":
+                    act[3] = want_list
+
+
 def eval_names(job):
     """worker: job = dict(prog, root, inputs, modes) -> dict(skip=..) | dict(records=[(input, mode, impl, toks, line, probs)])"""
     pp = common.import_pyparsing()
@@ -347,7 +418,9 @@ def eval_names(job):
         root = gram.prepare(b, job["root"])
         if corr_parse.nullable_rep(pp, root):
             return {"skip": "nullable-repetition"}
-        nodes, ri = gram.extract(b, root)
+        nodes, _ris, ids, _order = gram.extract_multi(b, [root])
+        ri = 0
+        program_facts(b, job["prog"], nodes, ids)
     except gram.Unsupported as ex:
         return {"skip": f"unsupported:{ex}"}
     except RecursionError:
@@ -520,7 +593,7 @@ def constructed_case(rng):
     """-> dict(build=<spec>, input, expect) ; `build` is interpreted by build_constructed (kept json-able for replays).
     expect: nested dict name -> value, where a value is a str, a list (as_list of the value), or {"sub": {...}} for a
     sub-result whose own names are given."""
-    k = rng.randrange(18)
+    k = rng.randrange(26)
     a, b, c = _w(rng, "ab"), _w(rng, "cd"), _w(rng, "ef")
     n = rng.randint(1, 3)
     as_ = [_w(rng, "ab") for _ in range(n)]
@@ -574,6 +647,40 @@ def constructed_case(rng):
             cur["inner"] = {"sub": {"x": a}}
             cur = cur["inner"]["sub"]
         return dict(kind="forward", input=s.strip(), expect=exp)
+    if k >= 22:  # "the token list for sequence elements" on an ALTERNATION with a sequence alternative, chained 2-4 deep,
+        #          the sequence in every position, `name` / `name*` (all spellings), single match or in a repetition
+        depth = rng.randint(2, 4)
+        pos = rng.randrange(depth)
+        style = rng.choice(["|", "|", "^", "list", "listor"])
+        spell = rng.choice(["plain", "star", "kw", "camel"])
+        rep = rng.random() < 0.5
+        singles = ["cd", "ef", "gh"]
+        stmts = []
+        for _ in range(rng.randint(2, 4) if rep else 1):
+            which = rng.randrange(depth)
+            if which == pos:
+                stmts.append([_w(rng, "ab"), _w(rng, "ab")])
+            else:
+                alphabet = singles[which if which < pos else which - 1]
+                stmts.append([_w(rng, alphabet)])
+        text = " ; ".join(" = ".join(t) for t in stmts) + (" ;" if rep else "")
+        listall = spell != "plain"
+        return dict(kind="altseq", depth=depth, pos=pos, style=style, spell=spell, rep=rep, input=text,
+                    expect={}, want_matches=(stmts if listall else stmts[-1:]), listall=listall,
+                    tokens=[x for t in stmts for x in t])
+    if k >= 18:  # list_all_matches by KEYWORD on a compound element that matches several times
+        elem = ["seq", "alt", "or", "each"][k - 18]
+        spell = rng.choice(["star", "kw", "kw", "camel"])
+        stmts = []
+        for _ in range(rng.randint(2, 3)):
+            if elem in ("seq", "each"):
+                stmts.append([_w(rng, "ab"), _w(rng, "cd")])
+            else:
+                stmts.append([_w(rng, rng.choice(["ab", "cd"]))])
+        sep = " = " if elem == "seq" else " "
+        text = " ; ".join(sep.join(t) for t in stmts) + " ;"
+        return dict(kind="kwstar", elem=elem, spell=spell, input=text, expect={}, want_matches=stmts, listall=True,
+                    tokens=[x for t in stmts for x in t])
     if k >= 14:  # a list-all name on the parts of a Combine that matches several times / is also used outside
         paths = [[_w(rng, "ab") for _ in range(rng.randint(1, 3))] for _ in range(rng.randint(2, 3))]
         flat = [x for pth in paths for x in pth]
@@ -624,6 +731,34 @@ def build_constructed(pp, case):
         return f
     if k == "copies":
         return A("first") + B("y") + A("second")
+    if k in ("altseq", "kwstar"):
+        def name_it(e, spell, nm="value"):
+            if spell == "plain":
+                return e(nm)
+            if spell == "star":
+                return e(nm + "*")
+            if spell == "kw":
+                return e.set_results_name(nm, list_all_matches=True)
+            return e.set_results_name(nm, listAllMatches=True)
+        if k == "altseq":
+            pair = A + pp.Suppress("=") + A
+            singles = [pp.Word("cd"), pp.Word("ef"), pp.Word("gh")]
+            alts = singles[: case["depth"] - 1]
+            alts.insert(case["pos"], pair)
+            st = case["style"]
+            if st == "list":
+                e = pp.MatchFirst(alts)
+            elif st == "listor":
+                e = pp.Or(alts)
+            else:
+                e = alts[0]
+                for x in alts[1:]:
+                    e = (e | x) if st == "|" else (e ^ x)
+            e = name_it(e, case["spell"])
+            return pp.OneOrMore(e + pp.Suppress(";")) if case["rep"] else e
+        el = case["elem"]
+        e = {"seq": A + pp.Suppress("=") + B, "alt": A | B, "or": A ^ B, "each": A & B}[el]
+        return pp.OneOrMore(name_it(e, case["spell"]) + pp.Suppress(";"))
     if k == "combstar":
         path = pp.Combine(A("seg*") + ("." + A("seg*"))[...])
         f = case["form"]
@@ -669,6 +804,27 @@ def check_expect(pp, r, expect, absent=(), path=""):
     return probs
 
 
+def _tokens_of(pp, v):
+    if isinstance(v, pp.ParseResults):
+        return v.as_list()
+    return v if isinstance(v, list) else [v]
+
+
+def check_matches(pp, r, name, want, listall):
+    """`want` = the tokens of every match of the named element (program-derived: a sequence alternative yields its token
+    list, a token alternative its token); list-all: all of them in order, else the last"""
+    probs = []
+    for form, got in (("[]", r[name] if name in r else None), ("get", r.get(name)), ("attribute", getattr(r, name)),
+                      ("as_dict", r.as_dict().get(name))):
+        if listall:
+            seen = [_tokens_of(pp, v) for v in (got if got is not None and not isinstance(got, str) else [])]
+            if seen != want:
+                probs.append(f"{name} by {form}: matches {seen!r}, expected all of {want!r}")
+        elif got is None or _tokens_of(pp, got) != want[-1]:
+            probs.append(f"{name} by {form}: {got!r}, expected the tokens of the last match {want[-1]!r}")
+    return probs
+
+
 def constructed_job(case):
     pp = common.import_pyparsing()
     out = []
@@ -692,6 +848,8 @@ def constructed_job(case):
                     out.append((list(mode), [f"constructed sentence parses to {r.as_list()!r}"]))
                     continue
                 probs = check_expect(pp, r, case["expect"], case.get("absent", ()))
+                if "want_matches" in case:
+                    probs.extend(check_matches(pp, r, "value", case["want_matches"], case["listall"]))
                 probs.extend(dump_problems(pp, r))
                 d = r.as_dict()
             except Exception as ex:  # noqa
@@ -718,12 +876,16 @@ def twin_of(prog):
     if any(st[1] in ("CharsNotIn", "Combine", "SkipTo") or (st[1] == "DelimitedList" and len(st) > 3 and st[3].get("combine")) or (st[1] in ("Literal", "Word", "Keyword", "CaselessLiteral") and " " in json.dumps(st[2:]))
            for st in prog):
         return None
-    names = [st for st in prog if st[1] == "name"]
+    def norm(st):     # (base name, list-all) a naming statement requests
+        if st[1] == "name":
+            return st[3].rstrip("*"), st[3].endswith("*")
+        return st[3].rstrip("*"), (bool(st[4]) if len(st) > 4 else False) or st[3].endswith("*")
+    names = [st for st in prog if st[1] in ("name", "set_results_name")]
     acted = {st[2] for st in prog if st[0] == "_" and st[1] in ("action", "condition")}
     defs = {st[0]: st for st in prog if st[0] != "_"}
     by_name = {}
     for st in names:
-        by_name.setdefault(st[3].rstrip("*"), []).append(st)
+        by_name.setdefault(norm(st)[0], []).append(st)
     cands = [sts[0] for nm, sts in by_name.items() if len(sts) == 1 and sts[0][0] not in acted and sts[0][2] not in acted
              and nm not in ("locn_start", "locn_end", "value")]
     # the named variable must be used exactly once (a shared element under the same name would bind twice)
@@ -739,10 +901,10 @@ def twin_of(prog):
     for t in prog:
         if t is st:
             twin.append([st[0] + "_loc", "Located", st[2]])
-            twin.append([st[0], "name", st[0] + "_loc", st[3].rstrip("*") + "*"])   # the twin lists ALL matches
+            twin.append([st[0], "name", st[0] + "_loc", norm(st)[0] + "*"])   # the twin lists ALL matches
         else:
             twin.append(t)
-    return st[3].rstrip("*"), st[3].endswith("*"), twin, defs.get(st[2], [None, None])[1], st[0]
+    return norm(st)[0], norm(st)[1], twin, defs.get(st[2], [None, None])[1], st[0]
 
 
 def _reports(pp, got, lst, is_group):
@@ -841,7 +1003,7 @@ def run(ctx):
                     "replacing actions on named elements, copies, named Forwards, backtracked alternatives, Opt defaults) x "
                     "inputs sampled from the grammar + mutations; compared: the full nested view (items, keys, r[k]=get=attr) "
                     "and as_dict(); non-trivial = successful parse with at least one name; modes: memoization off, packrat, "
-                    "left-recursion; constructed: 18 grammar families with a constructed expected name tree (incl. Combine, "
+                    "left-recursion; constructed: 26 grammar families with a constructed expected name tree (incl. Combine, "
                     "FollowedBy, Dict, Located) x random words; twin: e('n') vs Located(e)('n')")
     # registered finding (the model reproduces it - theorem replaced_tokens_first_only - so the correspondence is quiet):
     # after a parse action that returns a list, a list-valued name reports only the first token of the new list
